@@ -117,7 +117,7 @@ def run(an: Analysis, rep):
     validation = None
     for n in ast.walk(fn.node):
         if isinstance(n, ast.If) and any(isinstance(c, ast.Call) and isinstance(c.func, ast.Attribute) and c.func.attr in ("error", "exit") for b in n.body for c in ast.walk(b)):
-            r = count_expr_vars(n.test, umap)
+            r = count_expr_vars(inline_locals(fn.node, n.test), umap)
             if r:
                 validation = (n, r)
     if validation is None:
